@@ -79,6 +79,9 @@ type request struct {
 	reply  string // result error (iq); always error for message/presence
 	read   string // none some all (how much of the response is read before Close)
 	hold   bool   // keep the response open while another stanza queues up behind it
+	// while the response is held (handed over, partly read, not closed) the
+	// caller's context ends: the response stays the caller's until it closes it
+	cancelHeld bool
 	early  bool   // racing scenarios: feed the reply as soon as the request is on the wire
 	nsForm string // "" or stream namespace on the request element
 
@@ -94,6 +97,11 @@ type request struct {
 	panicked  string
 	done      chan struct{}
 	release   chan struct{} // closed by the harness to let a holding caller close its response
+	holding   chan struct{} // closed by the caller once it has the response and holds it
+	holdOnce  sync.Once
+	readToks  []string // what the caller read after the start element (read == "all")
+	readErr   error    // the error that ended that reading
+	iterItems int      // Iter entries: children iterated
 }
 
 func (r *request) id() string { return "r" + strconv.Itoa(r.k) }
@@ -129,6 +137,7 @@ func genCase(t *rapid.T) tcase {
 		}
 		r.read = rapid.SampledFrom([]string{"none", "some", "all"}).Draw(t, "read")
 		r.hold = rapid.IntRange(0, 3).Draw(t, "hold") == 0
+		r.cancelHeld = r.hold && rapid.Bool().Draw(t, "cancelHeld")
 		r.early = rapid.Bool().Draw(t, "early")
 		if rapid.Bool().Draw(t, "nsform") {
 			r.nsForm = "ns"
@@ -151,7 +160,7 @@ func (tc tcase) String() string {
 	var sb strings.Builder
 	fmt.Fprintf(&sb, "s2s=%v answer-order=%v", tc.s2s, tc.ord)
 	for _, r := range tc.reqs {
-		fmt.Fprintf(&sb, "\n  req %s: %s scenario=%s reply=%s read=%s hold=%v early=%v ns=%q", r.id(), r.entry, r.scen, r.reply, r.read, r.hold, r.early, r.nsForm)
+		fmt.Fprintf(&sb, "\n  req %s: %s scenario=%s reply=%s read=%s hold=%v context-ends-while-held=%v early=%v ns=%q", r.id(), r.entry, r.scen, r.reply, r.read, r.hold, r.cancelHeld, r.early, r.nsForm)
 	}
 	return sb.String()
 }
@@ -159,7 +168,7 @@ func (tc tcase) String() string {
 func (tc tcase) results() string {
 	var sb strings.Builder
 	for _, r := range tc.reqs {
-		fmt.Fprintf(&sb, "\n  req %s: returned=%v err=%v resp=%v serial=%q name=%s id=%q stanzaErr=%v", r.id(), r.returned.Load(), r.err, r.gotResp, r.gotSerial, r.gotName, r.gotID, r.gotErrVal)
+		fmt.Fprintf(&sb, "\n  req %s: returned=%v err=%v resp=%v serial=%q name=%s id=%q stanzaErr=%v read=%v (ended by %v) iterated=%d", r.id(), r.returned.Load(), r.err, r.gotResp, r.gotSerial, r.gotName, r.gotID, r.gotErrVal, r.readToks, r.readErr, r.iterItems)
 	}
 	return sb.String()
 }
@@ -257,12 +266,15 @@ func (r *request) run(s *xmpp.Session, ns string) {
 						}
 					}
 				}
+				if r.hold {
+					r.holdOnce.Do(func() { close(r.holding) })
+					<-r.release
+				}
 				if r.read != "none" {
 					for it.Next() {
+						r.iterItems++
 					}
-				}
-				if r.hold {
-					<-r.release
+					r.readErr = it.Err()
 				}
 				_ = it.Close()
 			case errors.As(r.err, &se):
@@ -283,18 +295,27 @@ func (r *request) run(s *xmpp.Session, ns string) {
 					}
 				}
 			}
+			if r.hold {
+				r.holdOnce.Do(func() { close(r.holding) })
+				<-r.release
+			}
 			switch r.read {
 			case "some":
 				_, _ = resp.Token()
 			case "all":
 				for {
-					if _, err := resp.Token(); err != nil {
+					tok, err := resp.Token()
+					switch tk := tok.(type) {
+					case xml.StartElement:
+						r.readToks = append(r.readToks, "<"+tk.Name.Local)
+					case xml.EndElement:
+						r.readToks = append(r.readToks, "</"+tk.Name.Local)
+					}
+					if err != nil {
+						r.readErr = err
 						break
 					}
 				}
-			}
-			if r.hold {
-				<-r.release
 			}
 			_ = resp.Close()
 		}
@@ -451,6 +472,7 @@ func check(t interface {
 		r.ctx = newObsCtx()
 		r.done = make(chan struct{})
 		r.release = make(chan struct{})
+		r.holding = make(chan struct{})
 		if r.scen == "pre" {
 			r.ctx.cancel()
 		}
@@ -485,10 +507,19 @@ func check(t interface {
 			// while the caller holds the response the serve loop must wait;
 			// something queued behind it is processed after the close
 			q := feed("message", "chat", "queued", -1, "handler")
-			time.Sleep(2 * time.Millisecond)
-			if hl.count(q.serial) != 0 && !r.returned.Load() {
-				// the caller may simply not have reached its hold yet: only a
-				// problem if it really has the response and has not closed it
+			select {
+			case <-r.holding:
+				// the caller has the response (start element read) and keeps it open
+				if r.cancelHeld {
+					r.ctx.cancel()
+				}
+				time.Sleep(3 * time.Millisecond)
+				if hl.count(q.serial) != 0 {
+					fail("req %s holds its response open (not closed yet; context ended meanwhile: %v) but the serve loop went on to the next stanza n=%s", r.id(), r.cancelHeld, q.serial)
+				}
+			case <-r.done:
+				// Unmarshal helpers and failed calls never hold anything
+			case <-time.After(waitLong):
 			}
 			close(r.release)
 		}
@@ -665,6 +696,21 @@ func check(t interface {
 		if r.err == nil && !r.gotResp {
 			fail("req %s returned neither a response nor an error", r.id())
 		}
+		if r.gotResp && r.read == "all" && r.readToks != nil {
+			// the caller read its response to the end: it must be the whole stanza
+			want := []string{"<q", "<p", "</p", "</q", "</" + r.kind}
+			if r.kind != "iq" || r.reply == "error" {
+				want = []string{"<error", "<item-not-found", "</item-not-found", "</error", "</" + r.kind}
+			}
+			if strings.Join(r.readToks, " ") != strings.Join(want, " ") || r.readErr != io.EOF {
+				fail("req %s read its response to the end and got %v (ended by %v); the reply that was fed has %v", r.id(), r.readToks, r.readErr, want)
+			}
+		}
+		if r.gotResp && r.err == nil && !r.gotErrVal && r.read != "none" && strings.HasPrefix(r.entry, "Iter") {
+			if r.iterItems != 1 || r.readErr != nil {
+				fail("req %s iterated over %d children of its reply (error %v); the reply that was fed has 1", r.id(), r.iterItems, r.readErr)
+			}
+		}
 		if r.err != nil && !r.gotErrVal && !errors.Is(r.err, context.Canceled) && !isTimeout(r.err) && !errors.Is(r.err, io.EOF) {
 			// the only reasons this harness gives a call to fail are its context
 			fail("req %s failed with %v (neither its reply nor its context's error)", r.id(), r.err)
@@ -758,6 +804,9 @@ func classify(tc tcase) (bool, []string) {
 		}
 		if r.hold {
 			classes = append(classes, "response-held-open")
+		}
+		if r.cancelHeld {
+			classes = append(classes, "context-ends-while-response-held")
 		}
 	}
 	inOrder := true
